@@ -47,6 +47,13 @@ def cases(tier):
                     ("last+alldiff", U.spec([other, dom], [(0, 0), (1, 0)], [("alldifferent", [0, 1], ())]), 1),
                     ("middle+eq", U.spec([other, dom, other], [(0, 0), (1, 0), (2, 0)], [("affine_eq", [0, 1, 2], (1, 1, -1, 0))]), 1),
                 ]
+                # variable i does not use shared domain i (the docstring says "index of the variable", the code indexes the
+                # shared domains): judged with an oracle that accepts either reading, see check_case
+                third = (a + 1, a + 2)
+                for idx in (0, 1, 2):
+                    layouts.append((f"permuted{idx}", U.spec([dom, (-1, 0), third], [(1, 0), (2, 10), (0, 0)],
+                                                              [("affine_leq", [0, 2], (1, -1, 1))]), idx))
+                    layouts.append((f"rotated{idx}", U.spec([third, dom, (-1, 0)], [(2, 0), (0, -4), (1, 3)], []), idx))
                 for name, spec, idx in layouts:
                     out.append((name, spec, idx, k))
     return out
@@ -67,9 +74,26 @@ def check_case(acc, name, spec, idx, k, tier, presolve=False):
         acc.violation(f"{name}:split-raises:{type(e).__name__}", {"spec": SC.short(spec), "k": k, "idx": idx, "error": str(e)[:200]})
         return
     acc.c["splits"] += 1
+    w = {"spec": SC.short(spec), "k": k, "idx": idx}
+    # which domain was split: shared domain idx (what the code does) or the domain of variable idx (what the docstring says);
+    # either reading is accepted, but it must be one domain, the same in every part
+    cands = {idx, spec["vars"][idx][0]} if idx < len(spec["vars"]) else {idx}
+    changed = set()
+    for part in parts:
+        pd = part.__dict__["shr_domains_lst"]
+        if len(pd) != len(before["shr_domains_lst"]):
+            acc.violation(f"{name}:sub-problem-differs-elsewhere", dict(w), "a sub-problem has another number of domains")
+            return
+        changed |= {d for d in range(len(pd)) if list(pd[d]) != list(before["shr_domains_lst"][d])}
+    if len(changed) > 1 or not changed <= cands:
+        acc.violation(f"{name}:sub-problem-differs-elsewhere", dict(w, changed=sorted(changed)),
+                      "the sub-problems differ from the original in a domain that is not the split variable's")
+        return
+    idx = changed.pop() if changed else idx
+    if len(cands) > 1:
+        acc.c["nt_splits_where_variable_and_domain_index_differ"] += 1
     lo, hi = spec["doms"][idx]
     size = hi - lo + 1
-    w = {"spec": SC.short(spec), "k": k, "idx": idx}
     if not same(before, problem_fields(problem)):
         acc.violation(f"{name}:original-modified", w, "split changed the original problem")
     doms = []
@@ -155,10 +179,10 @@ def run(tier, seed):
                 "oracle = partition laws on the parts, deep comparison of original and sub-problems, find_all of every real "
                 "sub-problem vs brute force; non-trivial = k >= 2 on a domain of >= 2 values",
         "exhaustive": True,
-        "bounds": f"tier={tier}: a in {{-3,-1,0,2}}, size 1..{8 if tier == 'thorough' else 6}, k = 1..size+3, 6 layouts",
+        "bounds": f"tier={tier}: a in {{-3,-1,0,2}}, size 1..{8 if tier == 'thorough' else 6}, k = 1..size+3, 12 layouts (6 where variable i does not use shared domain i)",
     }
     return finish(PROP, tier, seed, "model_checking", acc, cov,
-                  ["var_idx is used by the code as a shared-domain index; the check drives it with indices valid under both readings"],
+                  ["var_idx is used by the code as a shared-domain index while the docstring calls it a variable index; where the two differ the oracle accepts a partition of either domain (one domain, the same in every part)"],
                   t0, vacuity={"nt_real_splits": 200})
 
 
